@@ -48,6 +48,40 @@ CHECKS = {
         note='MultiChain.force is modelled as the code does it: one chain.force per member in turn.'),
 }
 
+CHECKS.update({
+    'C08': dict(
+        cat='model_checking', ref='DESIGN.md 4.2, 6/C08', engine='resolve',
+        technique='TLA+ Resolve (property-level resolution of config forests) enumerated and invariant-checked by TLC; '
+                  'every enumerated forest built as real files + Chain and compared at object level',
+        text='TLC enumerates config forests (root + two pipeline files, uses with/without namespaces up to depth 3, '
+             'double mounts, exclusion, abstract tasks, by-class/by-name/group/pattern/optional inputs, dangling and '
+             'cyclic declarations), checks EdgesLocal/TasksExact/ClosureLaw on each and prints the expected chain or '
+             'Error; the harness builds each forest (JSON/YAML, shuffled declaration order) with the real library and '
+             'compares task set, classes, input objects per task, required_tasks, dependent_tasks, '
+             'is_task_dependent_on for all pairs, and error/no-error.',
+        note='Menus of resolve_check.menus(); quick enumerates a seeded 1/61 slice of the product (about 7k forests), '
+             'thorough 1/3. Aliases (one shared object, several names) compared at object level.'),
+    'C09': dict(
+        cat='model_checking', ref='DESIGN.md 4.2, 6/C09', engine='resolve',
+        technique='TLA+ Resolve: Effective/precedence/NoLeak/Conflict checked by TLC on enumerated forests and contexts; '
+                  'every forest built with the real Config/Chain and parameter values compared',
+        text='Same enumeration as C08 with 8 context shapes (global, for_namespaces, lists, nested uses-as-namespace, '
+             'nested namespaces). TLC checks NoLeak and Precedence on the property-level semantics; the harness '
+             'compares every parameter value of every task (value and type), conflict / missing / wrong-type errors at '
+             'construction, and that caller-owned context objects are left unchanged.',
+        note='Values are small integers (99 stands for a string, to exercise dtype errors). Multi-config parts are not '
+             'in the menus yet.'),
+    'C10': dict(
+        cat='model_checking', ref='DESIGN.md 4.2, 6/C10', engine='names',
+        technique='TLA+ Names/NameRes: character-level transcription of _find_task_full_name checked equal to the '
+                  'token-level property by TLC on all name sets; every case replayed on the function and on real chains',
+        text='TLC enumerates all sets of <= 3 full names over namespace paths, group paths and names chosen to be '
+             'textual suffixes of one another, and all queries; checks IFind = PFind, UniqueResolves, ResultSane; each '
+             'case is pushed through _find_task_full_name under every order of the name list and through a real chain '
+             'with exactly those tasks (chain[q], get, in, attribute, input_tasks[q]).',
+        note='Quick replays all sets of <= 2 names (3.9k cases) and model-checks triples; thorough replays triples too.'),
+})
+
 PENDING = {
     'C02': 'check not built yet (KeyScheme specification in progress)',
     'C03': 'check not built yet (KeyScheme specification in progress)',
@@ -96,6 +130,11 @@ def main():
             'add_only': True,
         },
         'engines': [
+            {'name': 'resolve', 'path': '/verif/specs/Resolve.tla', 'serves_properties': ['C08', 'C09'],
+             'kind_free_text': 'TLA+ property-level semantics of config forests; TLC enumerates forests as initial '
+                               'states and prints expected resolutions; harness/tcverif/resolve_check.py binds'},
+            {'name': 'names', 'path': '/verif/specs/Names.tla', 'serves_properties': ['C10'],
+             'kind_free_text': 'TLA+ name resolution, token level vs character-level transcription of the code'},
             {'name': 'store', 'path': '/verif/specs/StoreAtomic.tla',
              'serves_properties': ['C01', 'C04', 'C07', 'C13'],
              'kind_free_text': 'TLA+ specification of task objects / chains / data directory at public-call '
